@@ -142,6 +142,16 @@ def r2_determinism(ctx):
             ctx.check(k == "ordered", "C15.R2", f, it, f"iteration over an ordered source `{U(it)[:50]}`",
                       f"`{U(it)[:70]}` iterates a {'set-like' if k == 'unordered' else 'possibly unordered'} collection inside an order-producing function: the emitted order "
                       "depends on hashing (string hashes change from one process to the next)")
+    # tensor sorts are not stable by default: ties (equal keys) come back in an unspecified order
+    for fn in ORDER_FUNCS:
+        fo = ix.func(DAG, f"{CLS}.{fn}", "C15.R2")
+        for c in ast.walk(fo.node):
+            if isinstance(c, ast.Call) and ((isinstance(c.func, ast.Attribute) and c.func.attr in ("argsort", "sort", "topk", "unique")) or U(c.func) in ("torch.argsort", "torch.sort", "np.argsort", "torch.unique", "np.unique")):
+                recv_is_list = isinstance(c.func, ast.Attribute) and c.func.attr == "sort" and not c.args and not any(k.arg in ("dim", "descending", "stable") for k in c.keywords)
+                stable = any(k.arg == "stable" and U(k.value) == "True" for k in c.keywords) or any(k.arg == "kind" and U(k.value) in ("'stable'", "'mergesort'") for k in c.keywords)
+                if recv_is_list or stable:
+                    continue
+                ctx.violation("C15.R2", fo, c, f"`{U(c)[:60]}` is not a stable sort: entries with equal keys come back in an unspecified order, so the emitted order is not a function of the definitions")
     f = ix.func(DAG, f"{CLS}.compute_topological_order_and_path_matrix", "C15.R2")
     q = [st for st in statements(f.node) if isinstance(st, ast.Assign) and isinstance(st.value, ast.Call) and U(st.value.func) in ("SimpleQueue", "Queue", "deque", "collections.deque", "queue.SimpleQueue", "LifoQueue", "list")]
     sets = [st for st in statements(f.node) if isinstance(st, ast.Assign) and U(st.targets[0]).startswith("q_") and isinstance(st.value, (ast.Set, ast.Call)) and U(getattr(st.value, "func", st.value)) in ("set", "frozenset")]
